@@ -89,7 +89,7 @@ class Renderer(object):
                 acc.update(x["xs"])
             if e == "let":
                 declared.add(x["x"])
-            if e in ("for", "forin"):
+            if e in ("for", "forin", "collect"):
                 declared.add(x["x"])
             for v in x.values():
                 self.assigned(v, acc, declared)
@@ -259,6 +259,10 @@ class Renderer(object):
             return "(try %s catch E in { %s; true => throw E; never }%s)" % (self.ex(x["body"]), hs, fin)
         if e == "error":
             return "error %s" % esc(x.get("msg", "halt"))
+        if e == "collect":
+            src = "%s..%s" % (self.ex(x["src"]["lo"]), self.ex(x["src"]["hi"])) if x["src"].get("e") == "range" else self.ex(x["src"])
+            cond = "" if x["cond"].get("e") == "none" else " | %s" % self.ex(x["cond"])
+            return "([%s for %s in %s%s]@%s)" % (self.ex(x["body"]), self.nm(x["x"]), src, cond, tname(x["t"]))
         if e == "tuple":
             return "(%s)" % ", ".join(self.ex(a) for a in x["args"])
         if e == "masg":
@@ -444,6 +448,11 @@ def _fun_refs(body, bound):
                 for k, v in x.items():
                     if k != "body":
                         walk(v, bnd)
+                walk(x["body"], bnd | {x["x"]})
+                return
+            if e == "collect":
+                walk(x["src"], bnd)
+                walk(x["cond"], bnd | {x["x"]})
                 walk(x["body"], bnd | {x["x"]})
                 return
             if e == "lam":
